@@ -1,5 +1,6 @@
-//! Family binary (checks are registered here).
+//! Family binary: transports (C22 global-only transport, C23 DNS transport).
+mod c22;
 
 fn main() {
-    mc::main_dispatch(&[]);
+    mc::main_dispatch(&[("C22", c22::run, c22::META)]);
 }
